@@ -513,7 +513,7 @@ func (p *planner) read() {
 func genScript(t *rapid.T, o genOpts) vScript {
 	p := newPlanner(t, o)
 	steps := rapid.IntRange(3, 14+6*o.MaxWriters).Draw(t, "steps")
-	reads, dels, gcs := 0, 0, 0
+	reads, dels, gcs, iters := 0, 0, 0, 0
 	for i := 0; i < steps; i++ {
 		var open []*planWriter
 		for _, w := range p.writers {
@@ -545,6 +545,9 @@ func genScript(t *rapid.T, o genOpts) vScript {
 		case (k == 17 || k == 19 && o.Deletes) && o.Deletes && dels < o.MaxDeletes && len(open) == 0:
 			p.del()
 			dels++
+		case (k == 16 || k == 19) && o.Iter && iters < o.MaxIters && len(open) == 0 && len(p.allTS) > 0:
+			p.iterOp()
+			iters++
 		case k == 18 && o.GC && gcs < o.MaxGC && len(open) == 0:
 			p.ops = append(p.ops, vOp{K: "gc"})
 			gcs++
@@ -570,6 +573,12 @@ func genScript(t *rapid.T, o genOpts) vScript {
 	for reads < 2 {
 		p.read()
 		reads++
+	}
+	if o.Iter {
+		for iters < 1 || (iters < o.MaxIters && rapid.IntRange(0, 1).Draw(t, "moreiter") == 0) {
+			p.iterOp()
+			iters++
+		}
 	}
 	return vScript{Schema: p.sch, Ops: p.ops}
 }
@@ -608,8 +617,9 @@ type vRun struct {
 	opts    []Option
 	// facts for non-triviality
 	commits, cutReads, reads int
-	deletes, gcs             int
+	deletes, gcs, iters      int
 	lastFailKey              uint32
+	autoSteps, reversedWalks int
 	// taint is set once the run has performed an operation that is a recorded known
 	// finding's precondition and corrupts state; it prefixes every later signature.
 	taint string
